@@ -80,7 +80,7 @@ class Run(Oracles):
             size = inf if spec.get("size") is None else (float(spec["size"]) if spec.get("size_as_float") else spec["size"])
             kw: Dict[str, Any] = {}
             if spec.get("name") is not None:
-                kw["name"] = spec["name"]
+                kw["name"] = spec["name"]      # "" included: it must behave like no name
             if spec.get("size") is not None or spec.get("size_explicit_inf"):
                 kw["pool_size"] = size
             if spec["cls"] == "SimpleTaskPool":
